@@ -400,6 +400,567 @@ theorem run_wellformed_current (O : Oracles) (c : ClassOpts) (fields : List (Str
   simp only [wfDecl, and_true_iff] at hw
   exact run_wellformed Generated.wrappers O c fields hw.1.1 hw.2 tables_ok ops s hops hs
 
+/-! ### nested wrappers, both bindings (`stepB`)
+
+  `bound = false`: the code today — a nested wrapper is bound to the scratch structure, so its
+  validated assignment goes nowhere and only a `super()` call acts (in place, unvalidated).
+  `bound = true`: the proposed repair — the nested wrapper re-assigns its parent.
+  Failure-atomicity and the error classes hold for EVERY operation under both bindings; the
+  well-formedness invariant holds for every operation when bound, and when unbound for every
+  operation except a nested call whose table row makes an in-place native call (`OpOk`). -/
+
+/-- the row lets a scratch-bound nested wrapper do nothing at all: overridden, no in-place native call -/
+def InertRow (r : MethodRec) : Bool := r.overridden && !r.superCall
+
+/-- the table row a nested call is dispatched to -/
+def nestedRow (tbl : List MethodRec) (fields : List (String × FieldDecl)) : Op → Option MethodRec
+  | .callNested f k m =>
+    (lookup f fields).bind fun fd => (elemDecl fd k).bind fun ed =>
+      (wrapperKind ed).bind fun kind => findRec tbl kind m.name
+  | _ => none
+
+/-- the operations for which "stays well-formed" is claimed: everything when nested wrappers are
+    bound to their parent; today everything except nested calls dispatched to a non-inert row -/
+def OpOk (bound : Bool) (tbl : List MethodRec) (fields : List (String × FieldDecl)) (op : Op) : Bool :=
+  bound || TopOp op || (match nestedRow tbl fields op with | some r => InertRow r | none => true)
+
+theorem nested_facts (c : ClassOpts) (s s' : Attrs) (f : String) (k : PyVal) (kind : String)
+    (r : MethodRec) (m : NOp) (cur elem : PyVal) (out : Outcome)
+    (h : nestedStep c s f k kind r m cur elem = (s', out)) :
+    (∃ e, out = .err e ∧ s' = s ∧ AllowedErr e) ∨ (out = .ok ∧ (InertRow r = true → s' = s)) := by
+  unfold nestedStep at h
+  split at h
+  · cases h; exact Or.inl ⟨_, rfl, rfl, Or.inr (Or.inl rfl)⟩
+  · split at h
+    · cases h; exact Or.inl ⟨_, rfl, rfl, ofNErr_allowed _⟩
+    · split at h
+      · cases h; exact Or.inr ⟨rfl, fun _ => rfl⟩
+      · split at h
+        · rename_i hcond
+          cases h
+          refine Or.inr ⟨rfl, fun hi => ?_⟩
+          unfold InertRow at hi
+          simp only [and_true_iff] at hi
+          rcases hi with ⟨h1, h2⟩
+          simp [h1] at hcond
+          rw [hcond] at h2
+          cases h2
+        · cases h; exact Or.inr ⟨rfl, fun _ => rfl⟩
+
+theorem nestedBound_facts (O : Oracles) (c : ClassOpts) (fields : List (String × FieldDecl))
+    (s s' : Attrs) (f : String) (k : PyVal) (kind : String) (r : MethodRec) (m : NOp)
+    (cur elem : PyVal) (out : Outcome) (hr : r.validated = true)
+    (h : nestedBoundStep O c fields s f k kind r m cur elem = (s', out)) :
+    (∃ e, out = .err e ∧ s' = s ∧ AllowedErr e) ∨
+    (∃ new, setattrStep O c fields s f new = (s', out)) := by
+  unfold nestedBoundStep at h
+  simp only [hr, if_true] at h
+  split at h
+  · cases h; exact Or.inl ⟨_, rfl, rfl, Or.inr (Or.inl rfl)⟩
+  · split at h
+    · cases h; exact Or.inl ⟨_, rfl, rfl, ofNErr_allowed _⟩
+    · split at h
+      · cases h; exact Or.inl ⟨_, rfl, rfl, Or.inr (Or.inl rfl)⟩
+      · exact Or.inr ⟨_, h⟩
+
+/-- a hook-running deletion is the plain deletion, or an atomic ValueError (the hook raised) -/
+theorem delitemH_facts (dh : Bool) (O : Oracles) (c : ClassOpts) (s s' : Attrs) (f : String)
+    (out : Outcome) (h : delitemStepH dh O c s f = (s', out)) :
+    delitemStep c s f = (s', out) ∨ (out = .err .valueErr ∧ s' = s) := by
+  unfold delitemStepH at h
+  split at h
+  · split at h
+    · rename_i s2 heq
+      split at h
+      · cases h; exact Or.inl heq
+      · cases h; exact Or.inr ⟨rfl, rfl⟩
+    · exact Or.inl h
+  · exact Or.inl h
+
+/-- a successful hook-running deletion leaves a state the hook accepts -/
+theorem delitemH_hook (O : Oracles) (c : ClassOpts) (s s' : Attrs) (f : String)
+    (h : delitemStepH true O c s f = (s', .ok)) : O.hookOk s' = true := by
+  unfold delitemStepH at h
+  simp only [if_true] at h
+  split at h
+  · split at h
+    · rename_i hk; cases h; exact hk
+    · injection h with _ h2; cases h2
+  · rename_i r hne
+    exact absurd h (hne s')
+
+/-- what ONE operation can do, nested calls and both bindings included: fail atomically with an
+    allowed error, perform a validated assignment, delete an item, or succeed as a no-op — unless it
+    is a nested call dispatched to a non-inert row of a scratch-bound wrapper -/
+theorem stepB_cases (bound dh : Bool) (tbl : List MethodRec) (O : Oracles) (c : ClassOpts)
+    (fields : List (String × FieldDecl)) (s s' : Attrs) (op : Op) (out : Outcome)
+    (htbl : SafeTbl tbl = true) (h : stepB bound dh tbl O c fields s op = (s', out)) :
+    (∃ e, out = .err e ∧ s' = s ∧ AllowedErr e) ∨
+    (∃ f v, setattrStep O c fields s f v = (s', out)) ∨
+    (∃ f, delitemStep c s f = (s', out)) ∨
+    (out = .ok ∧ (OpOk bound tbl fields op = true → s' = s)) := by
+  have attrErr : AllowedErr (.other "AttributeError") :=
+    Or.inr (Or.inr (Or.inr (Or.inr (Or.inr rfl))))
+  have idxErr : ∀ cur : PyVal, AllowedErr (match cur with | .dict _ => MErr.keyErr | _ => MErr.indexErr) := by
+    intro cur
+    cases cur <;> first
+      | exact Or.inr (Or.inr (Or.inr (Or.inr (Or.inl rfl))))
+      | exact Or.inr (Or.inr (Or.inr (Or.inl rfl)))
+  cases op with
+  | setattr f v =>
+    have : stepB bound dh tbl O c fields s (.setattr f v) = setattrStep O c fields s f v := by
+      cases bound <;> rfl
+    rw [this] at h; exact Or.inr (Or.inl ⟨f, v, h⟩)
+  | delitem f =>
+    have : stepB bound dh tbl O c fields s (.delitem f) = delitemStepH dh O c s f := by
+      cases bound <;> rfl
+    rw [this] at h
+    rcases delitemH_facts dh O c s s' f out h with h1 | h1
+    · exact Or.inr (Or.inr (Or.inl ⟨f, h1⟩))
+    · exact Or.inl ⟨_, h1.1, h1.2, Or.inr (Or.inl rfl)⟩
+  | call f m =>
+    have : stepB bound dh tbl O c fields s (.call f m) = step tbl O c fields s (.call f m) := by
+      cases bound <;> rfl
+    rw [this] at h
+    rcases step_cases tbl O c fields s s' (.call f m) out htbl rfl h with h1 | h1 | h1
+    · exact Or.inl h1
+    · exact Or.inr (Or.inl h1)
+    · exact Or.inr (Or.inr (Or.inl h1))
+  | callNested f k m =>
+    cases bound with
+    | true =>
+      simp only [stepB] at h
+      split at h
+      · rename_i fd cur _ _
+        split at h
+        · rename_i ed elem _ _
+          split at h
+          · cases h; exact Or.inl ⟨_, rfl, rfl, attrErr⟩
+          · rename_i kind _
+            split at h
+            · cases h; exact Or.inl ⟨_, rfl, rfl, attrErr⟩
+            · rename_i r hfind
+              have hr : r.validated = true :=
+                (List.all_eq_true.mp htbl) r (findRec_mem tbl kind m.name r hfind)
+              rcases nestedBound_facts O c fields s s' f k kind r m cur elem out hr h with h1 | ⟨new, h2⟩
+              · exact Or.inl h1
+              · exact Or.inr (Or.inl ⟨f, new, h2⟩)
+        · cases h; exact Or.inl ⟨_, rfl, rfl, idxErr _⟩
+      · cases h; exact Or.inl ⟨_, rfl, rfl, attrErr⟩
+    | false =>
+      have : stepB false dh tbl O c fields s (.callNested f k m) = step tbl O c fields s (.callNested f k m) := rfl
+      rw [this] at h
+      simp only [step] at h
+      split at h
+      · rename_i fd cur hfd _
+        split at h
+        · rename_i ed elem hed _
+          split at h
+          · cases h; exact Or.inl ⟨_, rfl, rfl, attrErr⟩
+          · rename_i kind hkind
+            split at h
+            · cases h; exact Or.inl ⟨_, rfl, rfl, attrErr⟩
+            · rename_i r hfind
+              rcases nested_facts c s s' f k kind r m cur elem out h with h1 | ⟨h1, h2⟩
+              · exact Or.inl h1
+              · refine Or.inr (Or.inr (Or.inr ⟨h1, fun hok => h2 ?_⟩))
+                simpa [OpOk, TopOp, nestedRow, hfd, hed, hkind, hfind] using hok
+        · cases h; exact Or.inl ⟨_, rfl, rfl, idxErr _⟩
+      · cases h; exact Or.inl ⟨_, rfl, rfl, attrErr⟩
+
+/-- **failure-atomic, every operation**: a failed operation — nested calls included, under either
+    binding of nested wrappers — leaves the instance unchanged -/
+theorem stepB_err_unchanged (bound dh : Bool) (tbl : List MethodRec) (O : Oracles) (c : ClassOpts)
+    (fields : List (String × FieldDecl)) (s s' : Attrs) (op : Op) (e : MErr)
+    (htbl : SafeTbl tbl = true) (h : stepB bound dh tbl O c fields s op = (s', .err e)) : s' = s := by
+  rcases stepB_cases bound dh tbl O c fields s s' op _ htbl h with ⟨_, _, h2, _⟩ | ⟨f, v, h2⟩ | ⟨f, h2⟩ | ⟨h1, _⟩
+  · exact h2
+  · exact setattr_err_unchanged O c fields s s' f v e h2
+  · exact delitem_err_unchanged c s s' f e h2
+  · cases h1
+
+theorem stepB_err_class (bound dh : Bool) (tbl : List MethodRec) (O : Oracles) (c : ClassOpts)
+    (fields : List (String × FieldDecl)) (s s' : Attrs) (op : Op) (e : MErr)
+    (htbl : SafeTbl tbl = true) (h : stepB bound dh tbl O c fields s op = (s', .err e)) : AllowedErr e := by
+  rcases stepB_cases bound dh tbl O c fields s s' op _ htbl h with ⟨e', h1, _, h3⟩ | ⟨f, v, h2⟩ | ⟨f, h2⟩ | ⟨h1, _⟩
+  · cases h1; exact h3
+  · exact setattr_err_class O c fields s s' f v e h2
+  · exact delitem_err_class c s s' f e h2
+  · cases h1
+
+theorem stepB_wf (bound dh : Bool) (tbl : List MethodRec) (O : Oracles) (c : ClassOpts)
+    (fields : List (String × FieldDecl)) (s s' : Attrs) (op : Op) (out : Outcome)
+    (hnd : strNodup (fields.map (·.1)) = true) (hwf : wfFields fields = true)
+    (htbl : SafeTbl tbl = true) (hop : OpOk bound tbl fields op = true)
+    (hs : WfState O c fields s = true)
+    (h : stepB bound dh tbl O c fields s op = (s', out)) : WfState O c fields s' = true := by
+  rcases stepB_cases bound dh tbl O c fields s s' op out htbl h with ⟨_, _, h2, _⟩ | ⟨f, v, h2⟩ | ⟨f, h2⟩ | ⟨_, h2⟩
+  · rw [h2]; exact hs
+  · cases out with
+    | ok => exact setattr_ok_wf O c fields s s' f v hnd hwf hs h2
+    | err e => rw [setattr_err_unchanged O c fields s s' f v e h2]; exact hs
+  · cases out with
+    | ok => exact delitem_ok_wf O c fields s s' f hs h2
+    | err e => rw [delitem_err_unchanged c s s' f e h2]; exact hs
+  · rw [h2 hop]; exact hs
+
+def runB (bound dh : Bool) (tbl : List MethodRec) (O : Oracles) (c : ClassOpts)
+    (fields : List (String × FieldDecl)) : Attrs → List Op → Attrs × List Outcome
+  | s, [] => (s, [])
+  | s, op :: rest =>
+    let r := stepB bound dh tbl O c fields s op
+    let t := runB bound dh tbl O c fields r.1 rest
+    (t.1, r.2 :: t.2)
+
+/-- **C03 (validated), nested calls included**: after any finite history of operations in `OpOk`
+    the instance is well-formed -/
+theorem runB_wellformed (bound dh : Bool) (tbl : List MethodRec) (O : Oracles) (c : ClassOpts)
+    (fields : List (String × FieldDecl))
+    (hnd : strNodup (fields.map (·.1)) = true) (hwf : wfFields fields = true)
+    (htbl : SafeTbl tbl = true) :
+    ∀ (ops : List Op) (s : Attrs), ops.all (OpOk bound tbl fields) = true → WfState O c fields s = true →
+      WfState O c fields (runB bound dh tbl O c fields s ops).1 = true
+  | [], s, _, hs => by simpa [runB] using hs
+  | op :: rest, s, hops, hs => by
+    simp only [List.all_cons, and_true_iff] at hops
+    simp only [runB]
+    exact runB_wellformed bound dh tbl O c fields hnd hwf htbl rest _ hops.2
+      (stepB_wf bound dh tbl O c fields s _ op _ hnd hwf htbl hops.1 hs rfl)
+
+/-- **C03 (failure-atomic), every history**: whatever the operations (nested calls included, either
+    binding), an operation that fails leaves the instance exactly as it was -/
+theorem runB_failures_atomic (bound dh : Bool) (tbl : List MethodRec) (O : Oracles) (c : ClassOpts)
+    (fields : List (String × FieldDecl)) (htbl : SafeTbl tbl = true) (s : Attrs) (ops : List Op)
+    (i : Nat) (op : Op) (_hi : ops[i]? = some op) (e : MErr)
+    (h : (stepB bound dh tbl O c fields (runB bound dh tbl O c fields s (ops.take i)).1 op).2 = .err e) :
+    (stepB bound dh tbl O c fields (runB bound dh tbl O c fields s (ops.take i)).1 op).1
+      = (runB bound dh tbl O c fields s (ops.take i)).1 :=
+  stepB_err_unchanged bound dh tbl O c fields _ _ op e htbl (Prod.ext rfl h)
+
+/-- the statement at full strength: EVERY finite history keeps a well-formed instance well-formed -/
+def FullStatement (bound dh : Bool) (tbl : List MethodRec) : Prop :=
+  ∀ (O : Oracles) (c : ClassOpts) (fields : List (String × FieldDecl)),
+    strNodup (fields.map (·.1)) = true → wfFields fields = true →
+    ∀ (ops : List Op) (s : Attrs), WfState O c fields s = true →
+      WfState O c fields (runB bound dh tbl O c fields s ops).1 = true
+
+/-- with nested wrappers bound to their parent (the proposed repair) the full statement holds -/
+theorem full_statement_bound (dh : Bool) (tbl : List MethodRec) (htbl : SafeTbl tbl = true) :
+    FullStatement true dh tbl := by
+  intro O c fields hnd hwf ops s hs
+  refine runB_wellformed true dh tbl O c fields hnd hwf htbl ops s ?_ hs
+  rw [List.all_eq_true]; intro op _; rfl
+
+/-- the rows a scratch-bound nested wrapper is not inert on are among the four listed findings
+    (`unvalidated:nested-list.append`, `-deque.append`, `-deque.appendleft`, `-dict.__setitem__`);
+    re-proved over the regenerated table on every run -/
+def nestedFindings : List (String × String) :=
+  [("list", "append"), ("deque", "append"), ("deque", "appendleft"), ("dict", "__setitem__")]
+
+theorem nested_exclusion_exact :
+    (Generated.nestedBound ||
+      Generated.wrappers.all (fun r => InertRow r || nestedFindings.contains (r.wrapper, r.method))) = true := by
+  decide
+
+/-- for the current tree: every history whose nested calls avoid the listed findings (no exclusion at
+    all once nested wrappers are bound) keeps the instance well-formed -/
+theorem runB_wellformed_current (O : Oracles) (c : ClassOpts) (fields : List (String × FieldDecl))
+    (defaults : List (String × PyVal)) (hw : wfDecl (.struct c fields defaults) = true)
+    (ops : List Op) (s : Attrs)
+    (hops : ops.all (OpOk Generated.nestedBound Generated.wrappers fields) = true)
+    (hs : WfState O c fields s = true) :
+    WfState O c fields (runB Generated.nestedBound Generated.delitemHook Generated.wrappers O c fields s ops).1 = true := by
+  simp only [wfDecl, and_true_iff] at hw
+  exact runB_wellformed _ _ Generated.wrappers O c fields hw.1.1 hw.2 tables_ok ops s hops hs
+
+/-! ### the class's `__validate__` hook as an invariant
+
+  `Field.__set__` runs the hook after storing and `Structure.__setattr__` rolls back when it raises,
+  so every assignment to a declared field keeps "the hook accepts the instance".  Item deletion and
+  the assignment of an undeclared attribute do not run the hook (finding `unvalidated:hook:delitem`,
+  kernel-checked below), so they are excluded (`HookOp`). -/
+
+theorem setattr_field_hook (O : Oracles) (c : ClassOpts) (fields : List (String × FieldDecl))
+    (s s' : Attrs) (f : String) (v : PyVal) (hl : (lookup f fields).isSome = true)
+    (h : setattrStep O c fields s f v = (s', .ok)) : s' = s ∨ O.hookOk s' = true := by
+  unfold setattrStep at h
+  split at h
+  · injection h with _ h2; cases h2
+  · split at h
+    · rename_i hn; rw [hn] at hl; cases hl
+    · split at h
+      · cases h; exact Or.inl rfl
+      · split at h
+        · injection h with _ h2; cases h2
+        · split at h
+          · injection h with _ h2; cases h2
+          · split at h
+            · rename_i hk; cases h; exact Or.inr hk
+            · injection h with _ h2; cases h2
+
+/-- operations that run the hook when they change the instance -/
+def HookOp (dh : Bool) (fields : List (String × FieldDecl)) : Op → Bool
+  | .setattr f _ => (lookup f fields).isSome
+  | .delitem _ => dh          -- only once `__delitem__` runs the hook (proposed repair)
+  | _ => true
+
+theorem stepB_hook (bound dh : Bool) (tbl : List MethodRec) (O : Oracles) (c : ClassOpts)
+    (fields : List (String × FieldDecl)) (s s' : Attrs) (op : Op) (out : Outcome)
+    (htbl : SafeTbl tbl = true) (hh : HookOp dh fields op = true) (hop : OpOk bound tbl fields op = true)
+    (hs : O.hookOk s = true) (h : stepB bound dh tbl O c fields s op = (s', out)) :
+    O.hookOk s' = true := by
+  have fromSet : ∀ f new, (lookup f fields).isSome = true →
+      setattrStep O c fields s f new = (s', out) → O.hookOk s' = true := by
+    intro f new hl h2
+    cases out with
+    | err e => rw [setattr_err_unchanged O c fields s s' f new e h2]; exact hs
+    | ok =>
+      rcases setattr_field_hook O c fields s s' f new hl h2 with h3 | h3
+      · rw [h3]; exact hs
+      · exact h3
+  cases op with
+  | setattr f v =>
+    have : stepB bound dh tbl O c fields s (.setattr f v) = setattrStep O c fields s f v := by
+      cases bound <;> rfl
+    rw [this] at h
+    exact fromSet f v hh h
+  | delitem f =>
+    have hd : dh = true := by simpa [HookOp] using hh
+    subst hd
+    have : stepB bound true tbl O c fields s (.delitem f) = delitemStepH true O c s f := by
+      cases bound <;> rfl
+    rw [this] at h
+    cases out with
+    | ok => exact delitemH_hook O c s s' f h
+    | err e =>
+      rcases delitemH_facts true O c s s' f _ h with h1 | h1
+      · rw [delitem_err_unchanged c s s' f e h1]; exact hs
+      · rw [h1.2]; exact hs
+  | call f m =>
+    have : stepB bound dh tbl O c fields s (.call f m) = step tbl O c fields s (.call f m) := by
+      cases bound <;> rfl
+    rw [this] at h
+    simp only [step] at h
+    split at h
+    · rename_i fd cur hfd _
+      split at h
+      · cases h; exact hs
+      · rename_i kind _
+        split at h
+        · cases h; exact hs
+        · rename_i r hfind
+          have hr : r.validated = true :=
+            (List.all_eq_true.mp htbl) r (findRec_mem tbl kind m.name r hfind)
+          rcases call_facts O c fields s s' f kind r m cur out hr h with ⟨_, _, h2, _⟩ | ⟨new, h2⟩
+          · rw [h2]; exact hs
+          · exact fromSet f new (by rw [hfd]; rfl) h2
+    · cases h; exact hs
+  | callNested f k m =>
+    cases bound with
+    | true =>
+      simp only [stepB] at h
+      split at h
+      · rename_i fd cur hfd _
+        split at h
+        · split at h
+          · cases h; exact hs
+          · rename_i kind _
+            split at h
+            · cases h; exact hs
+            · rename_i r hfind
+              have hr : r.validated = true :=
+                (List.all_eq_true.mp htbl) r (findRec_mem tbl kind m.name r hfind)
+              rcases nestedBound_facts O c fields s s' f k kind r m cur _ out hr h with ⟨_, _, h2, _⟩ | ⟨new, h2⟩
+              · rw [h2]; exact hs
+              · exact fromSet f new (by rw [hfd]; rfl) h2
+        · cases h; exact hs
+      · cases h; exact hs
+    | false =>
+      have h' : step tbl O c fields s (.callNested f k m) = (s', out) := h
+      simp only [step] at h'
+      split at h'
+      · rename_i fd cur hfd _
+        split at h'
+        · rename_i ed elem hed _
+          split at h'
+          · cases h'; exact hs
+          · rename_i kind hkind
+            split at h'
+            · cases h'; exact hs
+            · rename_i r hfind
+              rcases nested_facts c s s' f k kind r m cur elem out h' with ⟨_, _, h3, _⟩ | ⟨_, h3⟩
+              · rw [h3]; exact hs
+              · have hin : InertRow r = true := by
+                  simpa [OpOk, TopOp, nestedRow, hfd, hed, hkind, hfind] using hop
+                rw [h3 hin]; exact hs
+        · cases h'; exact hs
+      · cases h'; exact hs
+
+/-- **C03 (hook)**: over any history of hook-running operations the class's `__validate__` hook keeps
+    accepting the instance (whatever the hook is: `O.hookOk` is universally quantified) -/
+theorem runB_hook_partial (bound dh : Bool) (tbl : List MethodRec) (O : Oracles) (c : ClassOpts)
+    (fields : List (String × FieldDecl)) (htbl : SafeTbl tbl = true) :
+    ∀ (ops : List Op) (s : Attrs),
+      ops.all (fun op => HookOp dh fields op && OpOk bound tbl fields op) = true → O.hookOk s = true →
+      O.hookOk (runB bound dh tbl O c fields s ops).1 = true
+  | [], s, _, hs => by simpa [runB] using hs
+  | op :: rest, s, hops, hs => by
+    simp only [List.all_cons, and_true_iff] at hops
+    simp only [runB]
+    exact runB_hook_partial bound dh tbl O c fields htbl rest _ hops.2
+      (stepB_hook bound dh tbl O c fields s _ op _ htbl hops.1.1 hops.1.2 hs rfl)
+
+/-! ### kept wrapper references (stale wrappers) -/
+
+/-- **refinement**: a mutator called on a kept reference behaves exactly like a validated assignment
+    (to the field the reference is bound to) of the natively mutated copy of the REFERENCE's payload -/
+theorem callRef_attrs (bound dh : Bool) (tbl : List MethodRec) (O : Oracles) (c : ClassOpts)
+    (fields : List (String × FieldDecl)) (st : MState) (i : Nat) (m : NOp) (w : WRef) (r : MethodRec)
+    (hw : st.refs[i]? = some w) (hr : findRec tbl w.kind m.name = some r) :
+    ((stepR bound dh tbl O c fields st (.callRef i m)).1.attrs,
+      (stepR bound dh tbl O c fields st (.callRef i m)).2)
+      = refCallStep O c fields st.attrs w.field w.kind r m w.payload := by
+  simp only [stepR, hw, hr]
+
+/-- a mutator called on a kept reference: a validated assignment of the mutated copy of the
+    reference's payload, an atomic failure, or (conditional rows on a falsy instance) nothing -/
+theorem refCall_facts (O : Oracles) (c : ClassOpts) (fields : List (String × FieldDecl))
+    (s s' : Attrs) (f kind : String) (r : MethodRec) (m : NOp) (payload : PyVal) (out : Outcome)
+    (hr : r.validated = true)
+    (h : refCallStep O c fields s f kind r m payload = (s', out)) :
+    (∃ e, out = .err e ∧ s' = s ∧ AllowedErr e) ∨
+    (∃ new, setattrStep O c fields s f new = (s', out)) ∨ (out = .ok ∧ s' = s) := by
+  unfold refCallStep at h
+  split at h
+  · split at h
+    · cases h; exact Or.inl ⟨_, rfl, rfl, Or.inr (Or.inl rfl)⟩
+    · split at h
+      · cases h; exact Or.inl ⟨_, rfl, rfl, ofNErr_allowed _⟩
+      · cases h; exact Or.inr (Or.inr ⟨rfl, rfl⟩)
+  · rcases call_facts O c fields s s' f kind r m payload out hr h with h1 | h1
+    · exact Or.inl h1
+    · exact Or.inr (Or.inl h1)
+
+/-- what one operation of a history with kept references does to the instance -/
+theorem stepR_cases (bound dh : Bool) (tbl : List MethodRec) (O : Oracles) (c : ClassOpts)
+    (fields : List (String × FieldDecl)) (st st' : MState) (op : ROp) (out : Outcome)
+    (htbl : SafeTbl tbl = true) (h : stepR bound dh tbl O c fields st op = (st', out)) :
+    (∃ e, out = .err e ∧ st'.attrs = st.attrs ∧ AllowedErr e) ∨
+    (∃ f v, setattrStep O c fields st.attrs f v = (st'.attrs, out)) ∨
+    (∃ f, delitemStep c st.attrs f = (st'.attrs, out)) ∨
+    (out = .ok ∧ ((match op with | .plain o => OpOk bound tbl fields o | _ => true) = true →
+      st'.attrs = st.attrs)) := by
+  have attrErr : AllowedErr (.other "AttributeError") :=
+    Or.inr (Or.inr (Or.inr (Or.inr (Or.inr rfl))))
+  cases op with
+  | plain o =>
+    simp only [stepR] at h
+    cases hres : stepB bound dh tbl O c fields st.attrs o with
+    | mk a o2 =>
+      rw [hres] at h
+      injection h with h1 h2
+      subst h2
+      have ha' : st'.attrs = a := by rw [← h1]
+      rcases stepB_cases bound dh tbl O c fields st.attrs a o o2 htbl hres with ⟨e, he, hs, ha⟩ | h3 | h3 | ⟨h3, h4⟩
+      · subst he; subst hs
+        refine Or.inl ⟨e, rfl, ?_, ha⟩
+        rw [← h1]
+      · rw [ha']; exact Or.inr (Or.inl h3)
+      · rw [ha']; exact Or.inr (Or.inr (Or.inl h3))
+      · rw [ha']; exact Or.inr (Or.inr (Or.inr ⟨h3, h4⟩))
+  | take f =>
+    simp only [stepR] at h
+    split at h
+    · split at h
+      · split at h
+        · cases h; exact Or.inr (Or.inr (Or.inr ⟨rfl, fun _ => rfl⟩))
+        · cases h; exact Or.inr (Or.inr (Or.inr ⟨rfl, fun _ => rfl⟩))
+      · cases h; exact Or.inl ⟨_, rfl, rfl, attrErr⟩
+    · cases h; exact Or.inl ⟨_, rfl, rfl, attrErr⟩
+  | assignRef f i =>
+    simp only [stepR] at h
+    split at h
+    · cases h; exact Or.inl ⟨_, rfl, rfl, attrErr⟩
+    · rename_i w hw
+      split at h
+      · cases h; exact Or.inl ⟨_, rfl, rfl, attrErr⟩
+      · injection h with h1 h2
+        have hc : setattrStep O c fields st.attrs f w.payload = (st'.attrs, out) := by
+          rw [← h1, ← h2]
+        exact Or.inr (Or.inl ⟨f, w.payload, hc⟩)
+  | callRef i m =>
+    simp only [stepR] at h
+    split at h
+    · cases h; exact Or.inl ⟨_, rfl, rfl, attrErr⟩
+    · rename_i w hw
+      split at h
+      · cases h; exact Or.inl ⟨_, rfl, rfl, attrErr⟩
+      · rename_i r hfind
+        have hr : r.validated = true :=
+          (List.all_eq_true.mp htbl) r (findRec_mem tbl w.kind m.name r hfind)
+        injection h with h1 h2
+        have hc : refCallStep O c fields st.attrs w.field w.kind r m w.payload = (st'.attrs, out) := by
+          rw [← h1, ← h2]
+        rcases refCall_facts O c fields st.attrs st'.attrs w.field w.kind r m w.payload out hr hc with ⟨e, he, hs, ha⟩ | ⟨new, h3⟩ | ⟨h3, h4⟩
+        · refine Or.inl ⟨e, he, ?_, ha⟩
+          subst he
+          rw [← h1]
+          have e2 : (refCallStep O c fields st.attrs w.field w.kind r m w.payload).2 = .err e := by rw [hc]
+          have e1 : (refCallStep O c fields st.attrs w.field w.kind r m w.payload).1 = st.attrs := by rw [hc]; exact hs
+          simp only [e2, e1]
+        · exact Or.inr (Or.inl ⟨_, new, h3⟩)
+        · exact Or.inr (Or.inr (Or.inr ⟨h3, fun _ => h4⟩))
+
+/-- a failed operation leaves the instance AND every kept reference unchanged -/
+theorem stepR_err_unchanged (bound dh : Bool) (tbl : List MethodRec) (O : Oracles) (c : ClassOpts)
+    (fields : List (String × FieldDecl)) (st st' : MState) (op : ROp) (e : MErr)
+    (htbl : SafeTbl tbl = true) (h : stepR bound dh tbl O c fields st op = (st', .err e)) :
+    st'.attrs = st.attrs := by
+  rcases stepR_cases bound dh tbl O c fields st st' op _ htbl h with ⟨_, _, h2, _⟩ | ⟨f, v, h2⟩ | ⟨f, h2⟩ | ⟨h1, _⟩
+  · rw [h2]
+  · exact setattr_err_unchanged O c fields st.attrs st'.attrs f v e h2
+  · exact delitem_err_unchanged c st.attrs st'.attrs f e h2
+  · cases h1
+
+def ROpOk (bound : Bool) (tbl : List MethodRec) (fields : List (String × FieldDecl)) : ROp → Bool
+  | .plain o => OpOk bound tbl fields o
+  | _ => true
+
+theorem stepR_wf (bound dh : Bool) (tbl : List MethodRec) (O : Oracles) (c : ClassOpts)
+    (fields : List (String × FieldDecl)) (st st' : MState) (op : ROp) (out : Outcome)
+    (hnd : strNodup (fields.map (·.1)) = true) (hwf : wfFields fields = true)
+    (htbl : SafeTbl tbl = true) (hop : ROpOk bound tbl fields op = true)
+    (hs : WfState O c fields st.attrs = true)
+    (h : stepR bound dh tbl O c fields st op = (st', out)) : WfState O c fields st'.attrs = true := by
+  rcases stepR_cases bound dh tbl O c fields st st' op out htbl h with ⟨_, _, h2, _⟩ | ⟨f, v, h2⟩ | ⟨f, h2⟩ | ⟨_, h2⟩
+  · rw [h2]; exact hs
+  · cases out with
+    | ok => exact setattr_ok_wf O c fields st.attrs st'.attrs f v hnd hwf hs h2
+    | err e => rw [setattr_err_unchanged O c fields st.attrs st'.attrs f v e h2]; exact hs
+  · cases out with
+    | ok => exact delitem_ok_wf O c fields st.attrs st'.attrs f hs h2
+    | err e => rw [delitem_err_unchanged c st.attrs st'.attrs f e h2]; exact hs
+  · have : st'.attrs = st.attrs := by
+      apply h2
+      cases op <;> first | exact hop | rfl
+    rw [this]; exact hs
+
+/-- **C03 with kept (possibly stale) wrapper references**: whatever references the caller keeps and
+    whenever it uses them, the instance stays well-formed -/
+theorem runR_wellformed (bound dh : Bool) (tbl : List MethodRec) (O : Oracles) (c : ClassOpts)
+    (fields : List (String × FieldDecl))
+    (hnd : strNodup (fields.map (·.1)) = true) (hwf : wfFields fields = true)
+    (htbl : SafeTbl tbl = true) :
+    ∀ (ops : List ROp) (st : MState), ops.all (ROpOk bound tbl fields) = true →
+      WfState O c fields st.attrs = true →
+      WfState O c fields (runR bound dh tbl O c fields st ops).1.attrs = true
+  | [], st, _, hs => by simpa [runR] using hs
+  | op :: rest, st, hops, hs => by
+    simp only [List.all_cons, and_true_iff] at hops
+    simp only [runR]
+    exact runR_wellformed bound dh tbl O c fields hnd hwf htbl rest _ hops.2
+      (stepR_wf bound dh tbl O c fields st _ op _ hnd hwf htbl hops.1 hs rfl)
+
 /-! ### non-vacuity and the known finding -/
 
 def exO : Oracles := { reMatch := fun _ _ => true }
@@ -421,13 +982,113 @@ theorem machine_example :
     ∧ (step Generated.wrappers exO exC exFields exStart (.delitem "a")).2 = .err .valueErr := by
   decide
 
+/-- does the regenerated table still make a scratch-bound nested wrapper act in place for this row?
+    (the counterexamples below are stated for the tree as it is: they become vacuous — not false —
+    when a row loses its `super()` call or nested wrappers get bound to their parent) -/
+def liveFinding (wrapper method : String) : Bool :=
+  !Generated.nestedBound && (match findRec Generated.wrappers wrapper method with
+    | some r => !InertRow r | none => false)
+
+def exFieldsN : List (String × FieldDecl) :=
+  [("n", .seqOf .list (.seqOf .list (.integer {}) {}) {}),
+   ("q", .seqOf .list (.seqOf .deque (.integer {}) {}) {}),
+   ("m", .seqOf .list (.mapOf (.string none none none) (.integer {}) {}) {})]
+def exCN : ClassOpts := { name := "A", required := [], addl := false, accepts := ["A"] }
+def exStartN : Attrs :=
+  [("n", .list [.list [.int 1]]), ("q", .list [.deque [.int 1]]),
+   ("m", .list [.dict [(.str "a", .int 1)]])]
+
+/-- an operation succeeds and leaves an instance that violates its declaration -/
+def Breaks (op : Op) : Bool :=
+  WfState exO exCN exFieldsN exStartN
+  && (stepB Generated.nestedBound Generated.delitemHook Generated.wrappers exO exCN exFieldsN exStartN op).2 == .ok
+  && !WfState exO exCN exFieldsN (stepB Generated.nestedBound Generated.delitemHook Generated.wrappers exO exCN exFieldsN exStartN op).1
+
 /-- known finding `unvalidated:nested-list.append`: a wrapper nested inside another collection is
     not validated — the full statement (all operations incl. nested wrappers) is false today -/
 theorem nested_counterexample :
-    (step Generated.wrappers exO exC exFields exStart (.callNested "n" (.int 0) (.append (.str "bad")))).2 = .ok
-    ∧ WfState exO exC exFields
-        (step Generated.wrappers exO exC exFields exStart (.callNested "n" (.int 0) (.append (.str "bad")))).1
-        = false := by
+    liveFinding "list" "append" = true → Breaks (.callNested "n" (.int 0) (.append (.str "bad"))) = true := by
+  decide
+
+/-- known finding `unvalidated:nested-deque.append` -/
+theorem nested_counterexample_deque_append :
+    liveFinding "deque" "append" = true → Breaks (.callNested "q" (.int 0) (.append (.str "bad"))) = true := by
+  decide
+
+/-- known finding `unvalidated:nested-deque.appendleft` -/
+theorem nested_counterexample_deque_appendleft :
+    liveFinding "deque" "appendleft" = true →
+      Breaks (.callNested "q" (.int 0) (.appendleft (.str "bad"))) = true := by
+  decide
+
+/-- known finding `unvalidated:nested-dict.__setitem__` -/
+theorem nested_counterexample_dict_setitem :
+    liveFinding "dict" "__setitem__" = true →
+      Breaks (.callNested "m" (.int 0) (.setitem (.str "b") (.str "bad"))) = true := by
+  decide
+
+/-- the full statement is false of a table that has a non-inert row when nested wrappers are
+    scratch-bound (the table of the pinned tree; the four findings) -/
+def pinnedAppend : List MethodRec :=
+  [{ wrapper := "list", method := "append", overridden := true, guard := true, reassign := true, superCall := true }]
+
+theorem full_statement_unbound_false : ¬ FullStatement false false pinnedAppend := by
+  intro h
+  have := h exO exCN exFieldsN (by decide) (by decide)
+    [.callNested "n" (.int 0) (.append (.str "bad"))] exStartN (by decide)
+  revert this
+  decide
+
+/-- with nested wrappers bound to their parent the same call is rejected and nothing changes;
+    a well-typed nested call is applied (today it would be silently lost for `insert`) -/
+theorem nested_bound_example :
+    (stepB true false Generated.wrappers exO exCN exFieldsN exStartN
+        (.callNested "n" (.int 0) (.append (.str "bad")))).2 = .err .typeErr
+    ∧ (match (stepB true false Generated.wrappers exO exCN exFieldsN exStartN
+        (.callNested "n" (.int 0) (.insert 0 (.int 7)))) with
+        | (("n", .list [.list [.int 7, .int 1]]) :: _, .ok) => true | _ => false) = true
+    ∧ (match (stepB false false Generated.wrappers exO exCN exFieldsN exStartN
+        (.callNested "n" (.int 0) (.insert 0 (.int 7)))) with
+        | (("n", .list [.list [.int 1]]) :: _, .ok) => true | _ => false) = true := by
+  decide
+
+/-- a kept reference that went stale: `w = x.a; x.a = [0, 0, 0]; w.append(3)` assigns the
+    REFERENCE's content plus 3 (validated; the intermediate assignment is overwritten), and an
+    ill-typed append through the stale reference is rejected leaving everything as it was -/
+theorem stale_reference_example :
+    (match (runR false false Generated.wrappers exO exC exFields { attrs := exStart }
+        [.take "a", .plain (.setattr "a" (.list [.int 0, .int 0, .int 0])), .callRef 0 (.append (.int 3)),
+         .callRef 0 (.append (.int (-1)))]) with
+      | (⟨("a", .list [.int 1, .int 2, .int 3]) :: _, [⟨"a", "list", .list [.int 1, .int 2, .int 3], _⟩], _, _⟩,
+          [.ok, .ok, .ok, .err .valueErr]) => true
+      | _ => false) = true := by
+  decide
+
+/-- slices and `sort(key=, reverse=)` go through the same validated assignment -/
+theorem slice_sort_example :
+    (match (run Generated.wrappers exO exC exFields exStart
+        [.call "a" (.setslice (some 0) (some 1) none [.int 5, .int 6]),      -- [5, 6, 2]
+         .call "a" (.setslice none none none [.int 1, .int 2, .int 3, .int 4]),  -- maxItems = 3
+         .call "a" (.setslice (some 0) (some 1) none [.int (-1)]),            -- minimum = 0
+         .call "a" (.sortWith "neg" false),                                     -- [6, 5, 2]
+         .call "a" (.delslice none none (some 2)),                              -- [5]
+         .call "a" (.setslice none none (some (-1)) [.int 1, .int 2])]) with   -- size mismatch
+      | (("a", .list [.int 5]) :: _, [.ok, .err .valueErr, .err .valueErr, .ok, .ok, .err .valueErr]) => true
+      | _ => false) = true := by
+  decide
+
+/-- the hook of the counterexample: "field `a` must be set" -/
+def exOHook : Oracles := { reMatch := fun _ _ => true, hookOk := fun st => (lookup "a" st).isSome }
+def exCOpt : ClassOpts := { name := "A", required := [], addl := false, accepts := ["A"] }
+
+/-- finding `unvalidated:hook:delitem`: `del x[f]` does not run `__validate__` — the deletion
+    succeeds and leaves an instance its own hook rejects -/
+theorem delitem_skips_hook :
+    exOHook.hookOk exStart = true
+    ∧ (step Generated.wrappers exOHook exCOpt exFields exStart (.delitem "a")).2 = .ok
+    ∧ exOHook.hookOk (step Generated.wrappers exOHook exCOpt exFields exStart (.delitem "a")).1 = false
+    -- … and with the hook-running deletion the same operation is refused atomically
+    ∧ (stepB false true Generated.wrappers exOHook exCOpt exFields exStart (.delitem "a")).2 = .err .valueErr := by
   decide
 
 end Typedpy.C03
